@@ -1,5 +1,6 @@
 import CogentModel.Json
 import CogentModel.Model.Csv
+import CogentModel.Model.CastStr
 import CogentModel.Model.TableOps
 import CogentModel.Spec.TableRows
 open CogentModel CogentModel.TableOps
@@ -278,6 +279,18 @@ def handle (cmd : String) (j : J) : Except String J :=
       -- also return the (transformed) key sequence so that tie order need not be compared
       pure (resJ r)
     | o => throw s!"unknown op {o}"
+  | "to_csv" => do
+    let d : Csv.Dialect := { delim := ← delimOfJ j, lt := ['\n'] }
+    let hdr := (← strsOfJ (← j.get "header")).map String.toList
+    pure (.str (String.ofList (Csv.toCsvText d hdr (← rowsOfJ (← j.get "rows")))))
+  | "cast" => do
+    -- the loader's decision on one column of cell texts: int / float / text
+    let cells := (← strsOfJ (← j.get "cells")).map String.toList
+    let pf : List Char → Option (List Char) := fun s => if CastStr.isFloatText s then some s else none
+    match CastStr.castColumn pf cells with
+    | .ints ns => pure (.obj [("kind", .str "int"), ("values", .arr (ns.map .num))])
+    | .floats _ => pure (.obj [("kind", .str "float")])
+    | .text _ => pure (.obj [("kind", .str "text")])
   | "lex_le" => do
     let a := (← (← j.get "a").toStr).toList.map Char.toNat
     let b := (← (← j.get "b").toStr).toList.map Char.toNat
